@@ -160,11 +160,14 @@ func (server *Server) registerSugarExecutors() {
 	server.RegisterExexutor("STRLEN", func(conn *Conn, cmd string, args Arguments) (*Message, error) {
 		getRet, err := server.executeCommand(conn, "GET", args)
 		if err != nil {
+			return nil, err
+		}
+		if getRet.IsNil() {
 			return NewIntegerMessage(0), nil
 		}
 		getVal, err := getRet.String()
 		if err != nil {
-			return NewIntegerMessage(0), nil
+			return nil, err
 		}
 		return NewIntegerMessage(len(getVal)), nil
 	})
@@ -178,11 +181,14 @@ func (server *Server) registerSugarExecutors() {
 	server.RegisterExexutor("HEXISTS", func(conn *Conn, cmd string, args Arguments) (*Message, error) {
 		getRet, err := server.executeCommand(conn, "HGET", args)
 		if err != nil {
+			return nil, err
+		}
+		if getRet.IsNil() {
 			return NewIntegerMessage(0), nil
 		}
 		_, err = getRet.String()
 		if err != nil {
-			return NewIntegerMessage(0), nil
+			return nil, err
 		}
 		return NewIntegerMessage(1), nil
 	})
